@@ -470,7 +470,9 @@ C17_Authentication(o) ==
     (IsU2f(o) /\ o.b.op = "auth" /\ Ends(o) # <<>>) =>
         LET known == Has(o.snap0, Req(o).handle) /\ Get(o.snap0, Req(o).handle).rp = Req(o).rp IN
         /\ (~known => ~EndOk(o))                 \* an unknown key handle fails
-        /\ ((known /\ NoFaults(o)) => EndOk(o))  \* a registered one authenticates, whatever the counter and presence byte
+        \* a registered one authenticates, whatever the counter and presence byte (a check-only request - control byte
+        \* 0x07 - is left open: the raw-message format lets an authenticator answer it without signing)
+        /\ ((known /\ NoFaults(o) /\ Req(o).ctl # "check") => EndOk(o))
         /\ (EndOk(o) => /\ EndD(o).sigkey = Req(o).handle    \* verifies under the key registered for that handle
                          /\ EndD(o).ctr = Req(o).counter /\ EndD(o).flags = Req(o).presence)
 
